@@ -121,7 +121,9 @@ func verifC06WrapperV1(logAppendTime bool) {
 		r.offset = w.offset - lastInner + m.offset
 		r.attrs |= uint8(codec)
 		if m.magic == 1 && logAppendTime {
+			// KIP-32 / Kafka's DeepRecordsIterator: wrapper timestamp AND timestamp type
 			r.tsMillis = w.ts
+			r.attrs |= 0x08
 		}
 		cands = append(cands, verifCand{want: r, keep: r.offset >= cfg.offset, hasTS: m.magic == 1})
 	}
